@@ -58,6 +58,9 @@ class Node(BaseComponent):
         """
         super().__init__(channel=channel, **kwargs)
 
+        # the peers of this node (not of every node in the process)
+        self.__peers = {}
+
         if port is not None:
             self.server = Server(port, channel=channel, **kwargs).register(self)
         else:
